@@ -94,6 +94,9 @@ def _steps_of(hist, name):
         k = h["k"]
         if k in ("conn", "cut"):
             out.append({"k": k})
+        elif k == "app":
+            key = {"time": "need_time", "local": "local_control", "trouble": "device_trouble", "cfg": "config_corrupt"}[h["bit"]]
+            out.append({"k": "app", key: bool(h["on"])})
         elif k == "adv":
             out.append({"k": "adv", "dt": h["dt"]})
         elif k == "upd":
